@@ -516,3 +516,22 @@ Proof.
 Qed.
 
 End Proofs.
+
+(* ---- example: a history over two listeners with a partial write, EAGAIN,
+   an answer, a death; balance and contiguity as the theorems state *)
+Definition ex_env : bytes := [1; 2; 3; 4; 5; 6].
+Definition ex_ops : list sop :=
+  [SProc 0 (PSpawn 101); SProc 0 PRunning; SProc 0 (PFeed [82; 69; 65; 68; 89; 10]);
+   SProc 1 (PSpawn 102); SProc 1 PRunning; SProc 1 (PFeed [82; 69; 65; 68; 89; 10]);
+   SDispatch 7 ex_env [WRoom 4; WRoom 100]; SDispatch 8 ex_env [WRoom 100; WAgain];
+   SProc 0 (PWritable (WRoom 1)); SProc 0 (PFeed [82; 69; 83; 85; 76; 84; 32; 50; 10; 79; 75]);
+   SProc 1 (PFinish [] (WRoom 100) false)].
+
+Example ex_history :
+  let '(s, o) := sys_run default_handler 4300 (init_sys 2) ex_ops in
+  map (fun p => (p_accepted p, p_ibuf p, l_event (p_l p))) s =
+    [([1; 2; 3; 4; 5], [6], None); ([1; 2; 3; 4; 5; 6], [], None)] /\
+  o = [SOut 0 (OState READY); SOut 1 (OState READY); SSent 0 7; SSent 1 8;
+       SOut 0 (OProcessed (Some 7)); SOut 0 (OState ACK); SOut 1 (ORejected (Some 8))] /\
+  bal 0 o = 0 /\ bal 1 o = 0.
+Proof. vm_compute. repeat split. Qed.
